@@ -248,7 +248,7 @@ impl ActionProvider for UpdateBlockAction {
             .collect(&key)
             .replace(target_id, &tree)
             .iter()
-            .to_default_markdown();
+            .to_markdown(&key.parent(), context.markdown_options());
 
         Some(vec![Change::Update(Update { key, markdown })])
     }
